@@ -31,8 +31,9 @@ from harness.props import c02 as G
 THEOREMS = [
     "Ffcx.C03.perm_group_interval", "Ffcx.C03.perm_group_triangle", "Ffcx.C03.perm_group_quad",
     "Ffcx.C03.perm_compose", "Ffcx.C03.perm_compose_order_matters", "Ffcx.C03.aligning_code_exists",
-    "Ffcx.C03.aligned_invariance", "Ffcx.C03.table_access_spec", "Ffcx.C03.drop_perm_axis",
-    "Ffcx.C03.flag_false_independent",
+    "Ffcx.C03.vertex_aligned_iff", "Ffcx.C03.facet_sum_change_of_variables", "Ffcx.C03.table_access_spec",
+    "Ffcx.C03.table_access_spec_noperm", "Ffcx.C03.aligned_table_read", "Ffcx.C03.aligned_invariance_partial",
+    "Ffcx.C03.drop_perm_axis", "Ffcx.C03.flag_false_independent",
 ]
 
 
